@@ -76,6 +76,7 @@ func main() {
 		replayOne = flag.String("replay", "", "replay a stored counterexample natively and exit")
 		smtlog    = flag.String("smtlog", "", "log SMT traffic of worker 0 to this file")
 		seed      = flag.Int("seed", 0, "seed (unused: exploration is deterministic)")
+		solverOv  = flag.String("solver", "", "override solver: cvc5|z3-new|z3")
 	)
 	flag.Parse()
 	t0 := time.Now()
@@ -86,6 +87,9 @@ func main() {
 	if err != nil {
 		fmt.Fprintln(os.Stderr, "ERROR:", err)
 		os.Exit(2)
+	}
+	if *solverOv != "" {
+		cfg.Solver = *solverOv
 	}
 	if *replayOne != "" {
 		os.Exit(replayStored(cfg, *verifRoot, *replayOne))
